@@ -713,7 +713,9 @@ fn exec(sc: &Scn, render: bool) -> RunOutput {
         (None, Some(Ok((r, wn)))) => {
             wit |= W_COMPLETED_OK;
             // both directions ended: everything relayed, both half-closes propagated, counts right
-            if got_pushes != l.out {
+            // (after the peer's Reset the flow is gone in both directions: what the local side still had cannot be
+            // relayed any more, and whether the bridge then ends with Ok and the counts or with BrokenPipe is its choice)
+            if got_pushes != l.out && !peer_reset {
                 push_viol(&mut viol, "relay.local-to-mux-incomplete", format!("bridge completed Ok but only {} of {} reached the wire", hx(&got_pushes), hx(&l.out)));
             }
             if !peer_reset && l.inn != peer_sent {
